@@ -113,6 +113,9 @@ def h_pdu(ctx, kind, cfg, var, o, factory=False, tail=0):
         e, u = call(b.cls.unpack, raw)
         ctx.holds("uncorrupted PDU is accepted", e is None, exc_name(e))
         ctx.holds("trailer == CRC-16 of all preceding octets", ((raw[-2] << 8) | raw[-1]) == crc16(ctx, items_of(raw)[:-2]))
+        ctx.holds("packed octets == reference layout (length field covers exactly what is packed)", raw == ctx.bytes_of(b.ref))
+        built_pdu_is_isolated_from_config(ctx, b.conf, cfg, lambda: b.cls.unpack(b.pdu.pack()) is not None and b.pdu.pack(), ctx.bytes_of(b.ref),
+                                          label="a PDU built earlier still packs to octets that pass the check after the caller moved its configuration on")
         return
     bad = corrupt(ctx, items_of(raw), o, CFDP_EXCL)
     e, u = call(PduFactory.from_raw if factory else b.cls.unpack, (bad + ctx.octets("following", tail)) if tail else bad)
@@ -196,7 +199,7 @@ def free_bit(o, L, excl):
 
 
 def pdu_variants(tier):
-    q = dict(eof=[("nofl", {}), ("fl1", dict(fl=1))], finished=[("r0", dict(nresp=0)), ("r1-fl", dict(nresp=1, fl=1))],
+    q = dict(eof=[("nofl", {}), ("fl1", dict(fl=1))], finished=[("r0", dict(nresp=0)), ("r1-fl", dict(nresp=1, fl=1)), ("r0-fl-omitted", dict(nresp=0, fl=1, fl_omitted=True))],
              ack=[("eof", dict(acked=4)), ("finished", dict(acked=5))], metadata=[("names11", {}), ("opts1", dict(nopts=1, optlen=1))],
              nak=[("s0", dict(nseg=0)), ("s1", dict(nseg=1))], prompt=[("p", {})], keepalive=[("p", {})],
              filedata=[("d1", dict(ndata=1)), ("d2-m2", dict(ndata=2, nmeta=2))])
